@@ -1102,7 +1102,29 @@ def s_comb(I, st, args, kwargs):
     k = z3.simplify(_int(args[1]))
     if z3.is_int_value(k) and k.as_long() == 2:
         return _pairs_stub(I, st, _as_seq(I, st, args[0]), False)
-    raise EngineError('itertools.combinations with symbolic / higher order: abstract it in the contract')
+    return _kcombinations_stub(I, st, _as_seq(I, st, args[0]), _int(args[1]))
+
+
+def _kcombinations_stub(I, st, seq, r):
+    """itertools.combinations(pool, r) for a symbolic r: a sequence of r-element selections of the pool at strictly increasing
+    positions, pairwise different as position sets (completeness - every selection occurs - is not modelled)."""
+    seq = materialize(I, st, seq) if seq.arr is not None else seq
+    ek = ('list', seq.ek)
+    REC = sort_of(ek)
+    ln, ar = REC.accessor(0, 0), REC.accessor(0, 1)
+    R = z3.Array(fresh_name('combs'), z3.IntSort(), REC)
+    L = z3.Int(fresh_name('combs.len'))
+    pos = z3.Function(fresh_name('combs.pos'), z3.IntSort(), z3.IntSort(), z3.IntSort())
+    q, c, q2 = (z3.Int(fresh_name(x)) for x in ('q', 'c', 'q2'))
+    n = seq.length
+    I.assume(st, z3.And(L >= 0, z3.Implies(z3.Or(r > n, r < 0), L == 0), z3.Implies(z3.And(r >= 0, r <= n), L >= 1)))
+    if seq.arr is not None:
+        I.assume(st, z3.ForAll([q], z3.Implies(z3.And(q >= 0, q < L), ln(R[q]) == r), patterns=[R[q]]))
+        I.assume(st, z3.ForAll([q, c], z3.Implies(z3.And(q >= 0, q < L, c >= 0, c < r), z3.And(
+            pos(q, c) >= 0, pos(q, c) < n, ar(R[q])[c] == seq.arr[pos(q, c)], z3.Implies(c + 1 < r, pos(q, c) < pos(q, c + 1)))),
+            patterns=[ar(R[q])[c], pos(q, c)]))
+        I.assume(st, z3.ForAll([q, q2], z3.Implies(z3.And(q >= 0, q < q2, q2 < L), R[q] != R[q2]), patterns=[z3.MultiPattern(R[q], R[q2])]))
+    return VSeq(ek, L, R, flavor='tuple')
 
 
 def _as_seq(I, st, v):
